@@ -270,8 +270,11 @@ def race_cases(rng, quick):
                             n += 1
                             cfg = world_cfg(K=2, cap=1, wt=True, pol=pol, lat=lat, pre=[101, 102],
                                             tick_ns=ticks[n % len(ticks)], seed=n)
-                            out.append((cfg, [[["put", 1, 0]], [["put", 1, b]], [rem + [r], ["get", 1, g]]],
-                                        "two_puts_removal_fill"))
+                            if rem[0] == "put":      # a put takes the write latency: the evicting put and the
+                                prog = [[["put", 1, 0]], [["put", 1, b]], [rem + [r]], [["get", 1, r + g]]]  # get are two clients
+                            else:
+                                prog = [[["put", 1, 0]], [["put", 1, b]], [rem + [r], ["get", 1, g]]]
+                            out.append((cfg, prog, "two_puts_removal_fill"))
                 # T3: three overlapping puts
                 for r in ((2,) if quick else (1, 2, 3, 4)):
                     for g in gs:
